@@ -381,6 +381,10 @@ where
 
         if let Some(old_entry) = self.cache.insert(Rc::clone(&key), entry) {
             self.handle_update(key, timestamp, policy_weight, old_entry);
+            // The update may have increased the weight of the entry. Restore the
+            // capacity bound now rather than at the beginning of the next call, so
+            // that `iter` (which cannot evict) and `contains_key` (which can) agree.
+            self.evict_lru_entries();
         } else {
             let hash = self.hash(&key);
             self.handle_insert(key, hash, policy_weight, timestamp);
